@@ -236,3 +236,7 @@ func (c *vconn) SetReadDeadline(t time.Time) error {
 	c.dl = vdeadline{t: t, fresh: true}
 	return nil
 }
+
+func contextWithCancel() (context.Context, context.CancelFunc) {
+	return context.WithCancel(context.Background())
+}
